@@ -279,7 +279,9 @@ EXTRA_NOTES = {
     "C02": " Props/C02CachesFaults.v (pipe_refines_single_caches_strong): with caches, at EVERY fault (cache rejection included) registers, output and the whole "
            "memory system (directory, counters) agree. Props/C02FaultTrace.v (flat memory, no instruction cache): at a fault the pipeline has retired every executed instruction (icount + 1 = single-cycle icount) and its retire "
            "trace is the single-cycle trace, minus its last element exactly when the faulting load/store is back-to-back behind its predecessor.",
-    "C04": " Props/C04Lex.v + Model/Lex.v: the RISC-V tokenizer is inside the model (domain: every element of str.splitlines()); proved: layout (blanks/tabs next to "
+    "C04": " Props/C04Spelling.v: at LOAD level — rv_load_text gives the same state, error (incl. line) and image for texts that differ only in register spelling (ABI/xN, s0/fp), "
+           "number base/sign spelling, mnemonic case, layout and comments (rv_load_text_spelling_independent and four readable corollaries; the one place where spelling matters is "
+           "proved to be the grammar's name positions: a word in a label/variable position is a name). Props/C04Lex.v + Model/Lex.v: the RISC-V tokenizer is inside the model (domain: every element of str.splitlines()); proved: layout (blanks/tabs next to "
            "separators, indentation, trailing blanks and comments), mnemonic case, ABI/xN register spellings, number bases, comment and blank lines do not change "
            "the result, with the exact limits of the grammar (lex_layout_limits, lex_label_case_matters); load_program(text) is compared with the model's lexer+assembler "
            "on the same text on every run (requests 92/93).",
@@ -305,7 +307,7 @@ EXTRA_NOTES = {
            "bases do not change the token lines (proved), and load_program(text) is compared with the model's lexer+assembler on the same text (requests 90/91).",
     "C14": " Props/C14Lex.v closes the loop through the modelled grammar: lex_of_printed (the lexer reads every printed instruction back as its own tokens, any immediate), "
            "print_lex_assemble (rv_load_text of a printed listing, after any comment/blank lines, yields exactly that listing at the same addresses).",
-    "C15": " Props/C15RvText.v: for EVERY list of source lines the model's RISC-V lexer + assembler yields no error, one of the line-carrying parser errors with 1 <= line <= "
+    "C15": " Props/C15RvWholeText.v + Model/LexText.v: the same for WHOLE texts (str.splitlines inside the model; every boundary character). Props/C15RvText.v: for EVERY list of source lines the model's RISC-V lexer + assembler yields no error, one of the line-carrying parser errors with 1 <= line <= "
            "number of lines naming the offending line (three-way split of syntax errors: lexical, rejected literal, misplaced declaration/directive), MemorySize or MemoryAddress; "
            "'uncaught' is never produced; a failed load leaves the reset state. Props/C15ToyText.v: for EVERY text the model's TOY lexer + assembler either succeeds or yields one of five line-carrying parser errors or the size error "
            "(the 'uncaught' constructor is proved impossible), the reported line number lies in 1..number of lines and names the offending line, and a failed load "
